@@ -759,6 +759,46 @@ func (in *interp) restoreFrom(step int, what string, fs storage.FileSystem, ck *
 		return nil, hx.Errf("step %d %s: restored database background task: %v", step, what, werr)
 	}
 	w := fmt.Sprintf("%s: database restored from checkpoint %d", what, ck.id)
+	// The first reads of a restored database come from several goroutines at once
+	// (handler calls, timers, a compaction): its tables were opened from their
+	// descriptors and load their metadata on first use.
+	first := make(chan error, 3)
+	reader := func(f func() error) {
+		go func() {
+			defer func() {
+				if r := recover(); r != nil {
+					first <- hx.Errf("step %d %s (one of three concurrent first readers) panicked: %v", step, w, r)
+				}
+			}()
+			first <- f()
+		}()
+	}
+	reader(func() error {
+		for _, k := range in.p.Keys {
+			if err := in.checkGet(step, w+" (concurrent first reads)", db, ck.snap, k); err != nil {
+				return err
+			}
+		}
+		return nil
+	})
+	reader(func() error {
+		for i := len(in.p.Keys) - 1; i >= 0; i-- {
+			if err := in.checkGet(step, w+" (concurrent first reads)", db, ck.snap, in.p.Keys[i]); err != nil {
+				return err
+			}
+		}
+		return nil
+	})
+	reader(func() error { return in.checkScan(step, w+" (concurrent first reads)", db, ck.snap, nil) })
+	var firstErr error
+	for i := 0; i < 3; i++ {
+		if err := <-first; err != nil && firstErr == nil {
+			firstErr = err
+		}
+	}
+	if firstErr != nil {
+		return nil, firstErr
+	}
 	for _, k := range in.p.Keys {
 		if err := in.checkGet(step, w, db, ck.snap, k); err != nil {
 			return nil, err
